@@ -112,7 +112,7 @@ UNITS.append(Unit('out.fd.write', ('@_ZN4CDNS6WriterIiE5writeEPKcm', None), cont
                   note='a rejected or short ::write raises CborOutputException; normal return iff every byte was accepted (sizes < 2^31: the result is compared as int)'))
 WS_CLOSE = '''
 __CPROVER_requires(__CPROVER_w_ok($this, sizeof(*$this)) && g_exc == 0 && !g_f_order_bad && !g_f_renamed && $this->m_out.open_ == g_f_open)
-__CPROVER_assigns($this->m_out, g_f_open, g_f_flushed, g_f_renamed, g_f_order_bad, g_exc)
+__CPROVER_assigns($this->m_out, g_f_open, g_f_flushed, g_f_renamed, g_f_order_bad, g_f_nrename, g_exc)
 __CPROVER_ensures(g_exc == 0 && !g_f_order_bad && !g_f_open)
 __CPROVER_ensures(@O0 ==> g_f_renamed)
 __CPROVER_ensures(!@O0 ==> !g_f_renamed)
@@ -122,6 +122,35 @@ UNITS.append(Unit('out.file.close', ('@_ZN4CDNS6WriterINSt7__cxx1112basic_string
                   setup='  static struct Writer_str obj;\n  __CPROVER_assume(!g_f_order_bad && !g_f_renamed && obj.m_out.open_ == g_f_open);\n', args=['&obj'],
                   props=['C15'], timeout=300,
                   note='the .part file is renamed to its final name only after flush and close of the stream, at most once per open, and not at all if no file is open'))
+WS_OPQ = {'std::type_info': 'struct type_info', 'std::basic_ofstream': 'struct ofstream', 'std::basic_ostream': 'struct ofstream', 'std::basic_ios': 'struct ofstream', 'std::ios_base': 'struct ofstream', 'boost::any': 'struct any'}
+WS_ROT = '''
+__CPROVER_requires(__CPROVER_w_ok($this, sizeof(*$this)) && __CPROVER_r_ok($1, sizeof(*$1)) && g_exc == 0 && !g_f_order_bad && !g_f_renamed && $this->m_out.open_ == g_f_open && g_f_nrename == 0)
+__CPROVER_assigns($this->m_out, $this->m_value, g_f_open, g_f_flushed, g_f_renamed, g_f_order_bad, g_f_nrename, g_exc)
+__CPROVER_ensures(g_exc == 0 || g_exc == EXC_CborOutputException)
+__CPROVER_ensures(!g_f_order_bad)
+__CPROVER_ensures($1->which == 1 ==> (g_f_nrename == (@O0 ? 1UL : 0UL)))
+__CPROVER_ensures($1->which != 1 ==> (g_f_nrename == 0 && g_f_open == @O0 && g_exc == 0))
+__CPROVER_ensures(($1->which == 1 && g_exc == 0) ==> (g_f_open && $this->m_out.open_ && !g_f_renamed))
+__CPROVER_ensures(($1->which == 1 && g_exc != 0) ==> !g_f_open)
+'''
+UNITS.append(Unit('out.file.rotate_output', ('@_ZN4CDNS6WriterINSt7__cxx1112basic_stringIcSt11char_traitsIcESaIcEEEE13rotate_outputERKN5boost3anyE', None), contract=WS_ROT, prelude=P, opaque=WS_OPQ,
+                  inline=[('@_ZN4CDNS6WriterINSt7__cxx1112basic_stringIcSt11char_traitsIcESaIcEEEE5closeEv', None), ('@_ZN4CDNS6WriterINSt7__cxx1112basic_stringIcSt11char_traitsIcESaIcEEEE4openEv', None)],
+                  ghost=[('_Bool', 'O0', 'g_f_open')], stubs=['ofstream__\\w+', 'lib_rename', 'cstring__\\w+', 'any\\w+', 'typeid__\\w+', 'type_info__\\w+'],
+                  setup='  static struct Writer_str obj; static struct any val;\n  __CPROVER_assume(!g_f_order_bad && !g_f_renamed && obj.m_out.open_ == g_f_open && g_f_nrename == 0);\n', args=['&obj', '&val'],
+                  props=['C15'], timeout=300, post='  if (g_exc != 0) { CANARY("open failure reachable"); }',
+                  note='rotation of a named file (real close() and open() bodies inlined): the file being closed is flushed and closed before it gets its final name, '
+                       'exactly one rename per closed file, none if no file was open; the new .part file is opened afterwards; a failed open raises'))
+WS_DTOR = '''
+__CPROVER_requires(__CPROVER_w_ok($this, sizeof(*$this)) && g_exc == 0 && !g_f_order_bad && !g_f_renamed && $this->m_out.open_ == g_f_open && g_f_nrename == 0)
+__CPROVER_assigns($this->m_out, g_f_open, g_f_flushed, g_f_renamed, g_f_order_bad, g_f_nrename, g_exc)
+__CPROVER_ensures(g_exc == 0 && !g_f_order_bad && !g_f_open && g_f_nrename == (@O0 ? 1UL : 0UL))
+'''
+UNITS.append(Unit('out.file.dtor', ('@_ZN4CDNS6WriterINSt7__cxx1112basic_stringIcSt11char_traitsIcESaIcEEEED1Ev', None), contract=WS_DTOR, prelude=P, opaque=WS_OPQ,
+                  inline=[('@_ZN4CDNS6WriterINSt7__cxx1112basic_stringIcSt11char_traitsIcESaIcEEEE5closeEv', None)],
+                  ghost=[('_Bool', 'O0', 'g_f_open')], stubs=['ofstream__\\w+', 'lib_rename', 'cstring__\\w+'],
+                  setup='  static struct Writer_str obj;\n  __CPROVER_assume(!g_f_order_bad && !g_f_renamed && obj.m_out.open_ == g_f_open && g_f_nrename == 0);\n', args=['&obj'],
+                  props=['C15'], timeout=300,
+                  note='destruction of the named-file writer: flush, close, then one rename; never throws'))
 TRUSTED_BASE = ['A10 zlib deflate/deflateInit2/deflateEnd per the zlib manual (consumes a prefix of next_in, produces a prefix of next_out, updates the four fields; '
                 'progress and eventual Z_STREAM_END assumed); decompress(output) == input rests on zlib itself',
                 'A11 std::ofstream / std::rename / ::write / fstat as ghost event automata with nondeterministic failures; POSIX rename atomicity',
